@@ -47,6 +47,7 @@ EDITS = (
     "calc-unsupported-expression",
     "sort-unsupported-expression",
     "sel-reuses-join-predicate",
+    "sel-reuses-join-predicate",
     "slice-negative",
     "slice-reversed",
     "slice-stepped",
@@ -60,7 +61,8 @@ def cfg(tier):
         binary=("chain", "join"),
         markers=("mat", "xfer", "xfer"),
         max_ops=6 if tier == "quick" else 10,
-        p_binary=0.15,
+        p_binary=0.25,
+        p_join_pred=70,
         avoid=frozenset(["D9", "D10", "D11"]),
         max_leaves=3,
     )
